@@ -299,7 +299,7 @@ theorem qty_frac (neg : Bool) (int frac : Bytes) (hi : Digits int) (hne : int â‰
     rw [if_neg (by omega)]
     simp
   | true =>
-    simp only [sgn, if_true, List.singleton_append, List.cons_append, List.nil_append,
+    simp only [sgn, if_true, List.cons_append, List.nil_append,
       signedDigits_minus (int ++ frac) (hi.append hf) (by simp [hne]), digitsNat_eq]
     rw [if_neg (by omega)]
     simp
